@@ -157,6 +157,9 @@ func (e *Engine) VerifyFunction(fn *ssa.Function, fc *FuncContract) (vc *VC) {
 	if len(exitPCs) > 0 {
 		o := vc.oblige("cover", key+"/cover/return", fc.Tags, Or(exitPCs...), True, fn.Pos(), "some return is reachable under the precondition")
 		o.Cover = true
+		if len(o.Splits) == 0 && len(exitPCs) > 1 {
+			o.Splits = exitPCs
+		}
 		// vacuity guard: `false` must not be provable at the returns (all facts, axioms included)
 		mf := vc.oblige("mustfail", key+"/vacuity/false", fc.Tags, Or(exitPCs...), False, fn.Pos(), "`false` must not be provable under the precondition and assumed contracts")
 		mf.MustFail = true
